@@ -227,6 +227,11 @@ class Model(object):
             return
         for iid in sorted(running):
             name = s.insts[iid]['name']
+            if self.P.tasks[name].get('workflow') and \
+                    not self.P.tasks[name].get('with-items'):
+                for s2 in self._complete_subwf(s, iid):
+                    self._dfs(s2)
+                continue
             never = self._never_answers(s, name)
             to = self._policy(name, 'timeout')
             if not never:
@@ -297,6 +302,42 @@ class Model(object):
         if r == 'C':
             return CANCELLED, 'cancel-%s' % key
         return ERROR, 'boom-%s' % key
+
+    def _complete_subwf(self, s0, iid):
+        """A sub-workflow task ends with the state of the child run and the
+        child's output as its result (one successor per child outcome)."""
+        t = self.P.tasks[s0.insts[iid]['name']]
+        child = (self.P.p.get('subs') or {})[t['workflow']]
+        child = dict(child)
+        child.setdefault('subs', self.P.p.get('subs'))
+        out = []
+        try:
+            self._glob = s0.glob
+            winp = self.eval_deep(t.get('wf-input') or {},
+                                  self.layers(s0.insts[iid]['ctx']),
+                                  s0.insts[iid])
+        except EvalError:
+            s = s0.copy()
+            self._after_complete(s, iid, ERROR)
+            return self._settle_all(s)
+        declared = set(child.get('input') or {})
+        cm = Model(child, {k: v for k, v in winp.items() if k in declared},
+                   self.results, self.env, self.skipped,
+                   self.timeouts_may_win)
+        cm.run()
+        for o in cm.outcomes.values():
+            s = s0.copy()
+            inst = s.insts[iid]
+            st = o['wf']
+            if st not in (SUCCESS, ERROR, CANCELLED):
+                continue
+            inst['result'] = json.loads(o['output']) \
+                if (st == SUCCESS and o['output']) else None
+            for fl in o['flags']:
+                s.flags.add('child:' + fl)
+            self._after_complete(s, iid, st)
+            out.extend(self._settle_all(s))
+        return out
 
     def _with_items_result(self, s, inst, t):
         """All items of a with-items task: one action (or sub-workflow) per
